@@ -5,7 +5,7 @@ import random
 
 from .. import boot  # noqa: F401
 from .. import world as W
-from ..corpus import Session, corpus, corpus_tree, corpus_users
+from ..corpus import Session, corpus, corpus_tree, corpus_users, payload_bytes
 from ..drive import Drive
 from ..runner import sig_of, rearm
 import aioftp
@@ -82,6 +82,15 @@ class IOLog:
         SIO.read, SIO.readline, SIO.write = self._orig
 
 
+def saw_mark(sess):
+    """the peer has read a 1xx mark as its last reply: the transfer of the current step is under way"""
+    last = None
+    for entry in getattr(sess.peer, "transcript", []):
+        if entry and entry[0] == "S":
+            last = entry[1]
+    return bool(last) and str(last)[:1] == "1"
+
+
 def conf_timeout(cfg, channel, direction):
     if channel == "control" and direction == "read":
         return cfg["idle"]
@@ -95,7 +104,7 @@ async def execute(net, hyg, plan):
     mon = {"release_time": 0, "no_release_without_timeout": 0, "wait_future_425": 0, "chatty_survives": 0, "ledger_after_release": 0}
     iolog = IOLog(loop)
     w = W.World(net, tree=corpus_tree([""]), users=corpus_users, idle_timeout=cfg["idle"], socket_timeout=cfg["sock"],
-                wait_future_timeout=cfg["wft"])
+                wait_future_timeout=cfg["wft"], **(plan.get("server_kwargs") or {}))
     try:
         await w.start()
         kind = plan["kind"]
@@ -160,6 +169,17 @@ async def execute(net, hyg, plan):
                                          "msg": f"{where}: the {chan} connection could not be written since {tr.write_paused_at - 1000:.4f} "
                                                 f"(peer not reading), socket_timeout {cfg['sock']}: closed at "
                                                 f"{tr.close_called_at and round(tr.close_called_at - 1000, 4)}"})
+                    st_ = sess.current_step or []
+                    if chan == "data" and cfg["sock"] and st_[:1] == ["xfer"] and st_[1] in ("STOR", "APPE") and saw_mark(sess):
+                        # an upload that was announced (150 seen by the peer) and whose sender fell silent: whatever reads the
+                        # data connection gives up socket_timeout after the last bytes arrived
+                        last_in = max(tr.last_data_in_at or tr.created_at, t_stall)
+                        limit_t = last_in + cfg["sock"] + EPS + 2 * LAT
+                        if tr.close_called_at is None or tr.close_called_at > limit_t:
+                            viol.append({"key": "not-released:data-read-blackbox",
+                                         "msg": f"{where}: upload stalled, last data bytes arrived at {last_in - 1000:.4f}, socket_timeout "
+                                                f"{cfg['sock']}: data connection closed at "
+                                                f"{tr.close_called_at and round(tr.close_called_at - 1000, 4)}"})
                     if chan == "control" and cfg["idle"]:
                         last = tr.last_data_in_at or tr.created_at
                         if tr.close_called_at is None or tr.close_called_at > last + cfg["idle"] + EPS:
@@ -205,6 +225,42 @@ async def execute(net, hyg, plan):
                 r3 = await s.peer.cmd("PWD", wait=10)
                 if r3 in (None, "EOF") or r3.code != "257":
                     viol.append({"key": "session-lost-after-425", "msg": f"{where}: PWD -> {r3}"})
+            s.peer.cut("fin")
+        elif kind == "throttled":
+            # speed limits make the server pause; those pauses are not the peer's silence: a client that keeps talking within
+            # idle_timeout and a transfer that keeps moving are not given up
+            s = Session(net, 2121)
+            await s.run([["connect"], ["login"], ["cmd", "TYPE I"]])
+            mon["throttled_not_dropped"] = mon.get("throttled_not_dropped", 0) + 1
+            fired = True
+            where = f"cfg {cfg} with {plan['server_kwargs']}, {plan['what']}"
+            if plan["what"] == "chatty":
+                lines = ["MKD /" + "x" * 190 + str(i) for i in range(plan["rounds"])]
+                for ln in lines:
+                    s.peer.send(ln)
+                    await asyncio.sleep(plan["every"])
+                codes = []
+                for _ in lines:
+                    r = await s.peer.read_reply(wait=120)
+                    codes.append(r.code if r not in (None, "EOF") else str(r))
+                    if r in (None, "EOF"):
+                        break
+                if codes != ["257"] * len(lines):
+                    viol.append({"key": "chatty-session-dropped:throttled",
+                                 "msg": f"{where}: a {len(lines[0])}-byte command every {plan['every']}s (idle_timeout {cfg['idle']}): replies {codes}"})
+            else:
+                up = plan["what"] == "upload"
+                await s.run([["epsv"], ["xfer", "STOR", "/thr.bin", plan["size"], "before", 3, 4096, 0] if up else ["xfer", "RETR", "/f.bin"]])
+                codes = [c for c in s.outcomes[-1] if c.isdigit()]
+                ok = codes == ["150", "226"] and (w.tree().get("/thr.bin") == payload_bytes(plan["size"], 3) if up
+                                                   else s.downloads[-1][2] == corpus_tree([""])["/f.bin"])
+                if not ok:
+                    viol.append({"key": "moving-transfer-given-up:throttled",
+                                 "msg": f"{where}: the data kept flowing at the limited rate (socket_timeout {cfg['sock']}): {s.outcomes[-1]}"})
+            if s.alive:
+                r = await s.peer.cmd("PWD", wait=120)
+                if r in (None, "EOF") or r.code != "257":
+                    viol.append({"key": "session-lost:throttled", "msg": f"{where}: PWD afterwards -> {r}"})
             s.peer.cut("fin")
         elif kind == "rest":
             # the peer never reads its control connection; commands are sent until the network takes no more and then until
@@ -388,6 +444,18 @@ def gen_cases(tier, seed):
             for delta in (0.01, 0.5, 2.0):
                 cases.append({"kind": "single", "plan": {"kind": "chatty", "cfg": cfg, "delta": delta, "rounds": 6,
                                                          "cmds": ["PWD", "SYST", "TYPE I", "NOOP", "CWD /dir", "MLST /f.bin"], "seed": seed}})
+    for cfg in ({"idle": 4, "sock": 3, "wft": 1}, {"idle": 4, "sock": None, "wft": 1}, {"idle": None, "sock": 3, "wft": 1}):
+        if cfg["idle"]:
+            for skw in ({"read_speed_limit": 40}, {"read_speed_limit_per_connection": 40}, {"write_speed_limit": 15}):
+                cases.append({"kind": "single", "plan": {"kind": "throttled", "cfg": cfg, "what": "chatty", "rounds": 5, "every": 2.0,
+                                                         "server_kwargs": skw, "seed": seed}})
+        if cfg["sock"] and not cfg["idle"]:     # (with idle_timeout the silent control channel ends a long transfer, legitimately)
+            cases.append({"kind": "single", "plan": {"kind": "throttled", "cfg": cfg, "what": "upload", "size": 24576,
+                                                     "server_kwargs": {"read_speed_limit": 2000}, "seed": seed}})
+            cases.append({"kind": "single", "plan": {"kind": "throttled", "cfg": cfg, "what": "upload", "size": 24576,
+                                                     "server_kwargs": {"read_speed_limit_per_connection": 1500}, "seed": seed}})
+            cases.append({"kind": "single", "plan": {"kind": "throttled", "cfg": cfg, "what": "download",
+                                                     "server_kwargs": {"write_speed_limit": 2000}, "seed": seed}})
     for idle in (None, 4):
         for sock in (3,):
             for rest in (1, 500, 3000, 10000, 16384, 16500, 40000):
